@@ -155,6 +155,7 @@ func stringTok(t *rapid.T, bad bool) string {
 	n := rapid.IntRange(0, 5).Draw(t, "strn")
 	var sb strings.Builder
 	sb.WriteString(q)
+	sb.WriteString(boundaryPad(t, ""))
 	for i := 0; i < n; i++ {
 		sb.WriteString(rapid.SampledFrom([]string{"a", " ", "é", other, `\` + q, `\\`, `\41 `, "\\26\r\n", "\\26\r\nB", "\\\n", "\\\r\n", "\\\f", "/*", "*/", "url(", ")", "{", ";", "<!--", "\t", "\x00"}).Draw(t, "strpart"))
 	}
@@ -308,7 +309,20 @@ func genTok(t *rapid.T) tok {
 		return tok{css.WhitespaceToken, ws(t, 1)}
 	}
 	body := rapid.SampledFrom([]string{"", "c", " * ", "/*", "*", "**", "\n", "é", "url(", "\"", "<!--"}).Draw(t, "comment")
-	return tok{css.CommentToken, "/*" + body + "*/"}
+	return tok{css.CommentToken, "/*" + boundaryPad(t, body) + "*/"}
+}
+
+// boundaryPad: one content in sixty is padded in front to a length next to a multiple of 4096 (the block sizes in which a
+// scanner may search for a closing delimiter)
+func boundaryPad(t *rapid.T, s string) string {
+	if rapid.IntRange(0, 59).Draw(t, "boundarylen") != 0 {
+		return s
+	}
+	n := rapid.SampledFrom([]int{4093, 4094, 4095, 4096, 4097, 8190, 8191, 8192, 8193}).Draw(t, "contentlen")
+	if len(s) >= n {
+		return s
+	}
+	return strings.Repeat("x", n-len(s)) + s
 }
 
 func isNameChar(c byte) bool {
